@@ -91,6 +91,12 @@ theorem part_saved_always (p : Parts.Part) (h : Parts.WF p) :
     (Parts.saveAlways p).disk = Parts.abs p ∧ Parts.abs (Parts.saveAlways p) = Parts.abs p :=
   let ⟨_, a, b, _⟩ := Parts.saveAlways_spec p h; ⟨b, a⟩
 
+/-- … and for these parts no hypothesis on the flags is needed at all: even a content change that
+never raised the dirty flag (an attribute of a font guideline, stored in fontinfo) is persisted. -/
+theorem part_saved_always_unconditional (p : Parts.Part) (b : Parts.Blob) :
+    (Parts.saveAlways (Parts.setQuiet p b)).disk = b := by
+  rw [(Parts.saveAlways_exact _).1, Parts.setQuiet_abs]
+
 /-- A part written only when dirty or on save-as (kerning, features): the same conclusion. -/
 theorem part_saved_if_dirty (sa : Bool) (p : Parts.Part) (h : Parts.WF p) :
     (Parts.saveIfDirty sa p).disk = Parts.abs p ∧ Parts.abs (Parts.saveIfDirty sa p) = Parts.abs p :=
